@@ -26,7 +26,7 @@ class SerWorld:
         self.cw = ClassWorld(mods)
         self.cw.ev.max_steps = 2_000_000
         g = self.cw.genv
-        for n in ("encode_array", "encode_grid_segmentation", "blocks_to_block_id", "map2d"):
+        for n in [q for q in repo.mod(UTIL).funcs if "." not in q]:
             if n in g:
                 g["util." + n] = g[n]
         # module-level combinator constants of the puzzle module (evaluated, not listed)
